@@ -166,4 +166,50 @@ theorem activate_NowChecked (cfg : Cfg) (n : Net) (i : Nat) (h : n.NowChecked cf
   rw [setStrict_strict_other n i true l.r (hno l hl)] at hst
   exact h l hl hst hs hr e1 e2
 
+/-- ops that never switch a flag back on -/
+def Op.noActivation : Op → Bool
+  | .strict _ true => false
+  | _ => true
+
+theorem step_NowChecked (cfg : Cfg) (n : Net) (op : Op) (hop : op.noActivation = true)
+    (h : n.NowChecked cfg) : (n.step cfg op).NowChecked cfg := by
+  cases op with
+  | link via s r => exact link_NowChecked cfg n via s r h
+  | strict i b =>
+    cases b with
+    | false => exact deactivate_NowChecked cfg n i h
+    | true => cases hop
+  | push via s r v =>
+    intro l hl hst hs hr e1 e2
+    simp only [Net.step] at hl e1 e2 hst
+    rw [push_chan] at e1 e2 hst
+    rw [push_links] at hl
+    exact h l hl hst hs hr e1 e2
+  | setVal i v =>
+    intro l hl hst hs hr e1 e2
+    by_cases hc : typeCheckOk cfg (n.chan i) v = true
+    · simp only [Net.step, hc, if_true] at hl e1 e2 hst
+      exact h l hl hst hs hr e1 e2
+    · simp only [Net.step, hc] at hl e1 e2 hst
+      exact h l hl hst hs hr e1 e2
+
+theorem run_NowChecked (cfg : Cfg) (ops : List Op) (hops : ops.all Op.noActivation = true) :
+    ∀ n : Net, n.NowChecked cfg → (n.run cfg ops).NowChecked cfg := by
+  induction ops with
+  | nil => intro n h; exact h
+  | cons op ops ih =>
+    intro n h
+    simp only [List.all_cons, Bool.and_eq_true] at hops
+    exact ih hops.2 _ (step_NowChecked cfg n op hops.1 h)
+
+theorem push_receiverRejects (cfg : Cfg) (n : Net) (via : Via) (s r : Nat) (v : V)
+    (h : (n.push cfg via s r v).2 = .receiverRejects) : typeCheckOk cfg (n.chan r) v = false := by
+  unfold Net.push at h
+  repeat' split at h
+  all_goals simp_all
+
+theorem typeCheckOk_of_admits (cfg : Cfg) (c : Chan) (h : Hint) (v : V) (e : c.hint = some h)
+    (ha : admits cfg h v = true) : typeCheckOk cfg c v = true := by
+  simp [typeCheckOk, e, ha]
+
 end PwVerif.Hint
